@@ -46,12 +46,6 @@ FINDINGS = {
     B(["AddColumn", "H", "h1", {"type": "Any", "isFormula": True,
                                 "formula": "(lambda: [x for x in [[]] if not x.append(x)][0])()"}], ops=["hostile_formula"]),
     {"k": "restart", "mode": "reported"}]},
-  # C01 ------------------------------------------------------------------------------------------
-  "F-s.c01": {"profile": "c01", "cfg": {}, "events": [
-    OPEN, B(["AddTable", "T1", [col("c1", "Date")]], ["BulkAddRecord", "T1", [None], {"c1": [1641686400]}]),
-    B(["CreateViewSection", 1, 0, "record", [2], None]),
-    B(["UpdateSummaryViewSection", 5, []]),
-    B(["UpdateSummaryViewSection", 5, [2]], ["RemoveViewSection", 5])]},
   # C05 ------------------------------------------------------------------------------------------
   "F-t.c05": {"profile": "c05", "cfg": {"check_every": 1}, "events": [
     OPEN, B(["AddTable", "T1", [col("c1", "Text"), col("c3", "Int")]],
